@@ -263,6 +263,10 @@ class Interp:
         r = self.repo.resolve_name(fi.module, name)
         if r is not None:
             return r
+        g = self.repo.modules[fi.module].globals_assigned.get(name) if fi.module in self.repo.modules else None
+        if isinstance(g, ast.Constant) or (isinstance(g, (ast.Tuple, ast.List)) and
+                                           all(isinstance(x, ast.Constant) for x in g.elts)):
+            return self.eval(g, frame)            # a module-level literal constant
         if name in ('np', 'sp', 'pd', 'warnings'):
             return Marker(name)
         if name in ABSTRACT_TYPES:
@@ -324,7 +328,7 @@ class Interp:
         if isinstance(e, (ast.Tuple, ast.List)):
             vals = [self.eval(x, frame) for x in e.elts]
             return tuple(vals) if isinstance(e, ast.Tuple) else vals
-        if isinstance(e, ast.ListComp) and len(e.generators) == 1 and not e.generators[0].ifs:
+        if isinstance(e, (ast.ListComp, ast.GeneratorExp)) and len(e.generators) == 1 and not e.generators[0].ifs:
             g = e.generators[0]
             it = self.eval(g.iter, frame)
             if not isinstance(it, (list, tuple)):
@@ -367,9 +371,20 @@ class Interp:
                 if fi.is_property:
                     return self.call_func(fi, [o], {}, owner=fi.cls)
                 return ('bound', o, fi)
+            for c in self.repo.mro(o.cls):
+                if attr in c.class_attrs and isinstance(c.class_attrs[attr], (ast.Constant, ast.Tuple, ast.List)):
+                    return self.eval(c.class_attrs[attr], frame)     # class-level literal
             if attr in ('shape',):
                 return ()
             raise Raised('AttributeError', '%s.%s' % (o.cls.name, attr))
+        if isinstance(o, ClassInfo):
+            fi = self.repo.resolve_method(o, attr)
+            if fi is not None:
+                return ('unbound', fi)
+            for c in self.repo.mro(o):
+                if attr in c.class_attrs and isinstance(c.class_attrs[attr], (ast.Constant, ast.Tuple, ast.List)):
+                    return self.eval(c.class_attrs[attr], frame)
+            raise Unknown('attribute %s of %r' % (attr, o))
         if isinstance(o, NUM):
             if attr == 'shape':
                 return ()
@@ -517,6 +532,8 @@ class Interp:
             return self.builtin_or_func(fn, args, kwargs)
         if isinstance(fn, tuple) and fn and fn[0] == 'bound':
             return self.call_func(fn[2], [fn[1]] + args, kwargs, owner=fn[2].cls)
+        if isinstance(fn, tuple) and fn and fn[0] == 'unbound':
+            return self.call_func(fn[1], args, kwargs, owner=fn[1].cls)      # Cls.method(obj, ..)
         if isinstance(fn, tuple) and fn and fn[0] == 'nummethod':
             if fn[2] in IDENTITY_METHODS:
                 return fn[1]
